@@ -52,7 +52,7 @@ def apply_patch(root, patch):
 
 def run_pytest(root):
     r = subprocess.run(['/venv/bin/python', '-B', '-m', 'pytest', '-q', '-x', '-p', 'no:cacheprovider', 'tests'], cwd=root,
-                       capture_output=True, text=True, timeout=900,
+                       capture_output=True, text=True, timeout=240,
                        env=dict(os.environ, PYTHONPATH=root, PYTHONDONTWRITEBYTECODE='1'))
     tail = r.stdout.strip().splitlines()[-1] if r.stdout.strip() else ''
     return r.returncode == 0, tail
